@@ -163,6 +163,44 @@ def install(fault=None):
 
     nodeio.write_smtlib_to_file = write_smtlib_to_file
 
+    # ---- fault injection (C06): interrupt at the n-th low-level write of
+    # the output renderer, as a SIGINT arriving at that point would
+    fault = os.environ.get('VERIF_FAULT', '')
+    if fault.startswith('outwrite:'):
+        nth = int(fault.split(':')[1])
+        state = {'n': 0, 'armed': False}
+        real_ws = nodeio.write_smtlib
+
+        class Proxy:
+
+            def __init__(self, f):
+                self.f = f
+
+            def write(self, data):
+                if state['armed']:
+                    state['n'] += 1
+                    if state['n'] == nth:
+                        emit('fault', kind='KeyboardInterrupt', at=nth)
+                        raise KeyboardInterrupt()
+                return self.f.write(data)
+
+            def __getattr__(self, name):
+                return getattr(self.f, name)
+
+        def write_smtlib(file, exprs):
+            return real_ws(Proxy(file), exprs)
+
+        def armed_write(filename, exprs, inner=nodeio.write_smtlib_to_file):
+            state['armed'] = True
+            try:
+                return inner(filename, exprs)
+            finally:
+                state['armed'] = False
+                emit('fault_count', n=state['n'])
+
+        nodeio.write_smtlib = write_smtlib
+        nodeio.write_smtlib_to_file = armed_write
+
     # ---- checks (workers and main) -----------------------------------
     real_check_exprs = checker.check_exprs
 
